@@ -40,6 +40,8 @@ def type_of(v):
             if v.pytype is None:
                 raise Unsupported(f"type of opaque value {v.name}")
             return v.pytype
+        if isinstance(v, SymColl):
+            return v.pytype
         if hasattr(v, 'pytype'):
             return v.pytype
         raise Unsupported(f"type of {v!r}")
@@ -64,7 +66,12 @@ def truth(st, v):
                 return True
         return z3.Or([z3.Length(p.z) > 0 for p in v.parts])
     if isinstance(v, SList):
+        parts = [x for x in v.items if isinstance(x, SeqPart)]
+        if parts and len(parts) == len(v.items):
+            return zor(*[p.n > 0 for p in parts])
         return len(v.items) > 0
+    if isinstance(v, SymColl):
+        return v.part.n > 0
     if isinstance(v, SDict):
         return len(v.d) > 0
     if isinstance(v, SSet):
@@ -171,6 +178,10 @@ def str_eq(a, b):
 def values_eq(st, a, b):
     """structural `==` for values without user-defined __eq__ (objects handled by interp).
     returns bool or z3 Bool"""
+    if isinstance(a, SeqPart) or isinstance(b, SeqPart):
+        if a is b:
+            return True
+        raise Unsupported("comparison of different symbolic list segments")
     ka, kb = kind_of(a), kind_of(b)
     if ka == 'opaque' or kb == 'opaque':
         if a is b:
@@ -205,7 +216,17 @@ def values_eq(st, a, b):
     if ka in ('tuple', 'list'):
         ia = a if ka == 'tuple' else a.items
         ib = b if kb == 'tuple' else b.items
+        if any(isinstance(x, SeqPart) for x in ia) or any(isinstance(x, SeqPart) for x in ib):
+            # segments known to be empty on this path contribute nothing
+            ia = [x for x in ia if not (isinstance(x, SeqPart) and st.implied(x.n == 0))]
+            ib = [x for x in ib if not (isinstance(x, SeqPart) and st.implied(x.n == 0))]
         if len(ia) != len(ib):
+            pa = sorted(id(x) for x in ia if isinstance(x, SeqPart))
+            pb = sorted(id(x) for x in ib if isinstance(x, SeqPart))
+            if pa or pb:
+                if pa == pb:
+                    return False        # same segments, different number of other items: lengths differ
+                raise Unsupported("comparison of lists whose symbolic segments do not line up")
             return False
         conj = []
         for x, y in zip(ia, ib):
